@@ -487,14 +487,14 @@ def run(tier, seed, model_ok, translator, search=False):
             model({"op": "to_json", "v": pv}, case, impl, "to_json_serializable")
 
     # (b) well-formed tables
-    n_b = 12000 if thorough else 1200
+    n_b = 12000 if thorough else 1000
     for i in range(n_b):
         spec = gen_spec(rng)
         case = {"seed": seed, "stream": "b", "index": i, "table": spec_case(spec)}
         run_table_case(out, rng, spec, case, model)
 
     # (c) reader-produced JsonData
-    n_c = 7000 if thorough else 800
+    n_c = 7000 if thorough else 600
     for i in range(n_c):
         native = rng.random() < 0.4
         grid, info = c02.wf_grid(rng, native)
@@ -502,7 +502,7 @@ def run(tier, seed, model_ok, translator, search=False):
         run_grid_case(out, grid, info, case, model, via_blocks=(i % 2 == 1))
 
     # (d) malformed JsonData
-    n_d = 3000 if thorough else 400
+    n_d = 3000 if thorough else 300
     for i in range(n_d):
         spec = gen_spec(rng)
         t = build_table(rng, spec)
